@@ -272,6 +272,11 @@ def xkWalk : List String → List (Option XKey) → Nat → List String → Stri
         match arg.toNat? with
         | some j => xkWalk ops (keys.set j none) cur (("zero" ++ toString j) :: acc)
         | none => "bad-op"
+      else if op.startsWith "R" then
+        -- serialization round trip of the current key: String() then NewKeyFromString
+        match xkeyParse cksum4 validPK (xkeyString cksum4 k) with
+        | .ok c => xkWalk ops (keys ++ [some c]) keys.length (obsXKey (some c) :: acc)
+        | .error _ => xkWalk ops keys cur ("err" :: acc)
       else if op.startsWith "K" then
         match arg.toNat? with
         | some j => xkWalk ops keys j (("use" ++ toString j) :: acc)
@@ -455,6 +460,12 @@ def handle1 : List String → String
       | .ok k => xkWalk (if ops == "-" then [] else ops.splitOn ",") [some k] 0 [obsXKey (some k)]
       | .error _ => "err:parse"
     | none => "bad-op"
+  | ["xkn", ver, depth, fp, cn, cc, priv, key, ops] =>
+    match hexToList? ver, depth.toNat?, hexToList? fp, cn.toNat?, hexToList? cc, hexToList? key with
+    | some ver, some depth, some fp, some cn, some cc, some key =>
+      let k : XKey := ⟨ver, UInt8.ofNat depth, fp, cn, cc, key, priv == "1"⟩
+      xkWalk (if ops == "-" then [] else ops.splitOn ",") [some k] 0 [obsXKey (some k)]
+    | _, _, _, _, _, _ => "bad-op"
   | ["pcb", cb, sc] => match hexToList? cb, hexToList? sc with
     | some cb, some sc => match parseControlBlock validX cb with
       | .error e => "err:" ++ cbErrName e
